@@ -7,14 +7,18 @@ M: TLC explores spec/ParamRouting.tla, scenario "cond": NewDist -> CondCall x NG
 R: TLC emits every such case as JSON; each is instantiated on the real ConditionalDistribution /
    DependenceFunction classes (callables incl. signature defaults and chains of depth 1 and 2).
 V: spec/Trace_C08.tla judges every execution and asserts that the executed set is CondCases.
+Bounds: spec/ParamRoutingBounds.tla (Declare -> Eval / Fit; mutation ClipInit) emits ParamRoutingOps!BoundsCases:
+   dependence functions declared WITH bounds= (declared defaults inside / outside the bounds), evaluated without a
+   fit; the reference values are the driver's own calls of the python callables with their declared defaults.
 """
 from __future__ import annotations
 
+import json
 import warnings
 
 import numpy as np
 
-from .common import Qc, Machinery, import_virocon
+from .common import Qc, Machinery, import_virocon, parse_tuple_fields
 from . import distfam as D
 
 LEVEL = "model_checking"
@@ -464,6 +468,110 @@ def dtype_key(c):
     return f"{c['fam']} {c['method']} given={c['gkind']} dependence={'a+b*x**2' if c['fn'] == 'sq' else 'a+b*x**-1'}"
 
 
+def _bounded(A, B):
+    def _bounded_defaults(x, c, a=A, b=B):            # c declares no default: 1
+        return a + b * x * c
+
+    return _bounded_defaults
+
+
+def _bounded_chain(A, B):
+    def _bounded_chained(x, c, inner, a=A, b=B):      # inner: a second dependence function
+        return a + b * x * c * inner(x)
+
+    return _bounded_chained
+
+
+def bounds_of(bkind, A, B):
+    """bounds= for the coefficients (c, a, b) of _bounded(A, B) (A, B > 0, c -> 1): the kinds of
+    ParamRoutingOps!BoundsKinds, in the notations virocon accepts (None / +-inf for "no bound",
+    tuples / lists)"""
+    inf = float("inf")
+    return {"inside": [(0, None), (0, None), (None, None)],
+            "above": [[-inf, inf], [0, A / 2], [0, inf]],
+            "below": [(None, None), (None, None), (2 * B, None)],
+            "implicit": [(2, 3), (0, None), (0, None)],
+            "zero": [(None, 0), (None, None), (None, 0.0)]}[bkind]
+
+
+def condbounds_record(vc, rid, case, seed=0):
+    """One case of ParamRoutingOps!BoundsCases: every parameter of the family has a dependence function
+    declared WITH bounds= and is evaluated without a fit.  The reference value of a parameter at g is
+    the driver's own call of the python callable with its declared defaults (c = 1), one python float
+    at a time - never a call of the DependenceFunction object."""
+    fam, bkind, chain, shape, method = case["fam"], case["bkind"], case["chain"], case["shape"], case["method"]
+    names = D.NAMES[fam]
+    S = D.STORED[fam]
+    rec = dict(id=rid, kind="condbounds", fam=fam, bkind=bkind, chain=chain, shape=shape, method=method, exc="",
+               shapeok=True, tplrel=0, vecrel=0, parrel=0, ncmp=0)
+    worst = dict(tpl=0.0, vec=0.0, par=0.0)
+    vec = shape == "vv"
+    rs = 777 + seed
+    with warnings.catch_warnings(), np.errstate(all="ignore"):
+        warnings.simplefilter("ignore")
+        try:
+            DF = vc.DependenceFunction
+            deps, ref = {}, {}
+            for n in names:
+                A, B = S[n], round(0.01 * (names.index(n) + 2) * S[n], 9)
+                if chain == "chained":
+                    inner_fn = _bounded(0.7, 0.11)
+                    inner = DF(inner_fn, bounds=bounds_of(bkind, 0.7, 0.11))
+                    fn = _bounded_chain(A, B)
+                    deps[n] = DF(fn, bounds=bounds_of(bkind, A, B), inner=inner)
+                    ref[n] = (lambda fn, inner_fn: lambda gi: fn(gi, 1, lambda x: inner_fn(x, 1)))(fn, inner_fn)
+                else:
+                    fn = _bounded(A, B)
+                    deps[n] = DF(fn, bounds_of(bkind, A, B)) if names.index(n) % 2 else DF(fn, bounds=bounds_of(bkind, A, B))
+                    ref[n] = (lambda fn: lambda gi: fn(gi, 1))(fn)
+            cond = vc.distributions.ConditionalDistribution(D.build(vc, fam), deps)
+            g = np.array(GIVEN_VEC[0]) if vec else GIVEN_SCA[0]
+            gl = [float(v) for v in (GIVEN_VEC[0] if vec else [GIVEN_SCA[0]])]
+            refpar = [{n: float(ref[n](gi)) for n in names} for gi in gl]
+            for n in names:
+                got = cond.conditional_parameters[n](g)
+                want = [p[n] for p in refpar] if vec else refpar[0][n]
+                _, shp, rel = D.compare(got, want)
+                worst["par"] = max(worst["par"], rel if shp else float("inf"))
+            if method == "draw_sample":
+                x = 5 if vec else 1
+                res = cond.draw_sample(x, g, random_state=rs)
+                if vec:
+                    want = D.build(vc, fam).draw_sample(x, **{n: np.array([p[n] for p in refpar]) for n in names},
+                                                       random_state=rs)
+                else:
+                    want = D.build(vc, fam, refpar[0]).draw_sample(x, random_state=rs)
+                rec["shapeok"] = np.shape(res) == ((x, len(gl)) if vec else (x,))
+                _, shp, rel = D.compare(res, want)
+                worst["tpl"] = rel if shp else float("inf")
+                rec["ncmp"] = int(np.size(res))
+            else:
+                vals, sca = (PV, P_SCA) if method == "icdf" else (XV, X_SCA)
+                xs = list(vals) if vec else [sca[0]]
+                fnc = getattr(cond, method)
+                res = np.asarray(fnc(np.array(xs) if vec else xs[0], g), dtype=float)
+                rec["shapeok"] = res.shape == ((len(gl),) if vec else ())
+                resf = res.reshape(-1)
+                for i, gi in enumerate(gl):
+                    if i >= resf.size:
+                        break
+                    tv = getattr(D.build(vc, fam, refpar[i]), method)(xs[i])
+                    _, shp, rel = D.compare(resf[i], tv)
+                    worst["tpl"] = max(worst["tpl"], rel if shp else float("inf"))
+                    _, shp, rel = D.compare(resf[i], fnc(xs[i], gi))
+                    worst["vec"] = max(worst["vec"], rel if shp else float("inf"))
+                    rec["ncmp"] += 2
+        except Exception as e:  # noqa
+            rec["exc"] = f"{type(e).__name__}: {e}"[:160]
+    rec.update(tplrel=Qc(worst["tpl"], 1e15, 0, BIG), vecrel=Qc(worst["vec"], 1e15, 0, BIG),
+               parrel=Qc(worst["par"], 1e15, 0, BIG))
+    return rec
+
+
+def bounds_key(c):
+    return f"{c['fam']} {c['method']} bounds={c['bkind']} chain={c['chain']} shape={c['shape']} unfitted"
+
+
 def key_of(c):
     return f"{c['fam']} {c['method']} dependent={'+'.join(c['D'])} chain={c['chain']} shape={c['shape']}"
 
@@ -471,14 +579,16 @@ def key_of(c):
 QUICK_INT_CHAINS = ("plain", "const")      # = QuickIntChains of spec/ParamRoutingOps.tla
 
 
-def judge(ctx, vc, cases, summary=True, variants=(0,), hists=(), dcases=()):
+def judge(ctx, vc, cases, summary=True, variants=(0,), hists=(), dcases=(), bcases=()):
     part = [v for v in variants if v in (-1, -2) and ctx.quick and summary]
     cases = [dict(c, variant=c.get("variant", v)) for v in variants for c in cases
              if not (v in part and c["chain"] not in QUICK_INT_CHAINS)]
     recs = [cond_record(vc, i + 1, c, ctx.seed, c["variant"]) for i, c in enumerate(cases)]
     hrecs = [condhist_record(vc, len(recs) + i + 1, h, i) for i, h in enumerate(hists)]
     drecs = [conddtype_record(vc, len(recs) + len(hrecs) + i + 1, c, ctx.seed) for i, c in enumerate(dcases)]
-    allrecs = recs + hrecs + drecs
+    brecs = [condbounds_record(vc, len(recs) + len(hrecs) + len(drecs) + i + 1, c, ctx.seed)
+             for i, c in enumerate(bcases)]
+    allrecs = recs + hrecs + drecs + brecs
     if summary:
         allrecs.append(dict(id=len(allrecs) + 1, kind="summary", fullreps=len(variants) - len(part),
                             partreps=len(part)))
@@ -500,6 +610,11 @@ def judge(ctx, vc, cases, summary=True, variants=(0,), hists=(), dcases=()):
         for clause in failing.get(r["id"], []):
             ctx.violation(clause, dtype_key(c), f"exc={r['exc']!r} tplrel={r['tplrel']}e-15 vecrel={r['vecrel']}e-15 "
                           f"shapeok={r['shapeok']}", replay=dict(kind="conddtype", case=c))
+    for c, r in zip(bcases, brecs):
+        ctx.case("condbounds " + bounds_key(c), nontrivial=r["exc"] == "" and c["bkind"] != "inside")
+        for clause in failing.get(r["id"], []):
+            ctx.violation(clause, bounds_key(c), f"exc={r['exc']!r} tplrel={r['tplrel']}e-15 vecrel={r['vecrel']}e-15 "
+                          f"parrel={r['parrel']}e-15 shapeok={r['shapeok']}", replay=dict(kind="condbounds", case=c))
     if summary and failing.get(allrecs[-1]["id"]):
         raise Machinery(f"coverage clauses rejected: {failing[allrecs[-1]['id']]}")
     ctx.log(f"{len(recs)} conditional executions, {len(hrecs)} chained-function histories judged, "
@@ -507,10 +622,18 @@ def judge(ctx, vc, cases, summary=True, variants=(0,), hists=(), dcases=()):
     return cases, recs, failing
 
 
-def selftest(ctx, rec, hrec=None):
+def selftest(ctx, rec, hrec=None, brec=None):
     import copy
 
     muts = []
+    if brec is not None:
+        for clause, chg in (("DependenceValueIsCallableValue", dict(parrel=10 ** 8)),
+                            ("CondEqualsTemplateAtValues", dict(tplrel=10 ** 8)),
+                            ("VectorisedEqualsPointwise", dict(vecrel=5000)), ("Compared", dict(ncmp=0))):
+            r = copy.deepcopy(brec)
+            r.update(chg)
+            r["id"] = 900000 + len(muts)
+            muts.append((r, clause))
     if hrec is not None:
         for clause, chg in (("CondEqualsTemplateAtValues", dict(tplrel=10 ** 8)), ("ChainedSameGiven", dict(parrel=10 ** 8)),
                             ("Compared", dict(nev=0))):
@@ -552,7 +675,9 @@ def run(ctx):
                 "(thorough: 3 more seeded random input variants); plus every history of <= 4 steps (evaluate at g1/g2, "
                 "assign new coefficients to a level, fit the innermost level) of a chained dependence function of depth "
                 "1 and 2, replayed on a real ConditionalDistribution (template family, dependent set and conditioning "
-                "value kind rotate with the history index); non-trivial = the result differs from the "
+                "value kind rotate with the history index); plus every (family, bounds kind inside/above/below/implicit/"
+                "zero, plain/chained, scalar/vector, method) with dependence functions declared with bounds= and "
+                "evaluated unfitted (non-trivial: a declared default outside its bounds); non-trivial = the result differs from the "
                 "template evaluated without the dependence values; distinct = distinct case tuple")
     ctx.trusted = ["TLC 1.8 evaluating spec/ParamRoutingOps.tla / Trace_C08.tla",
                    "harness/c08.py reference arithmetic of the dependence callables (+, *, / only; IEEE exact)",
@@ -578,14 +703,24 @@ def run(ctx):
     hists = (ctx.generate("ParamRoutingMemo", "Gen_ParamRoutingMemo_d1.cfg")
              + ctx.generate("ParamRoutingMemo", "Gen_ParamRoutingMemo_d2.cfg"))
     dcases = ctx.generate("ParamRoutingDtypeGen", "Gen_ParamRoutingDtype.cfg")
+    # dependence functions declared with bounds=, evaluated unfitted: legs M and R in one TLC run (the model's
+    # invariant and the Emit invariant of the same module), then the mutated constructor
+    mr = ctx.model_check("ParamRoutingBounds", "MC_ParamRoutingBounds.cfg", must_cover=("Declare", "Eval", "Fit"),
+                         workers=2)
+    bcases = [json.loads(parse_tuple_fields(raw)[1]) for raw in sorted(set(mr.tuples("BEH")))]
+    ctx.model_check("ParamRoutingBounds", "MC_ParamRoutingBounds_mut.cfg",
+                    expect_violation="BoundsDoNotInfluenceEvaluation", workers=2)
     cases, recs, failing = judge(ctx, vc, cases, variants=ctx.pick((0, -1, -2), (0, -1, -2, 1, 2, 3)), hists=hists,
-                                 dcases=dcases)
+                                 dcases=dcases, bcases=bcases)
+    ctx.notes["bounded_unfitted_dependence_cases"] = len(bcases)
     ctx.notes["narrow_dtype_given_cases"] = len(dcases)
     ctx.notes["chained_function_histories"] = len(hists)
     good = next((r for r in recs if r["id"] not in failing and r["shape"] == "vv" and r["chain"] == "chain2"), None)
     if good is not None:
         hr = condhist_record(vc, 1, dict(depth=2, steps=["E1", "S2", "E1"]), 1)
-        selftest(ctx, good, hr if hr["exc"] == "" and hr["tplrel"] == 0 else None)
+        br = condbounds_record(vc, 1, dict(fam="LogNormal", bkind="inside", chain="chained", shape="vv", method="cdf"))
+        selftest(ctx, good, hr if hr["exc"] == "" and hr["tplrel"] == 0 else None,
+                 br if br["exc"] == "" and br["tplrel"] == 0 and br["parrel"] == 0 else None)
     elif not ctx.violations:
         raise Machinery("no accepted record to run the self-test on")
     else:
@@ -608,6 +743,14 @@ def replay(ctx, case):
         ctx.case(dtype_key(c["case"]))
         for clause in failing.get(1, []):
             ctx.violation(clause, dtype_key(c["case"]), f"exc={r['exc']!r} tplrel={r['tplrel']}", replay=c)
+        return
+    if c.get("kind") == "condbounds":
+        r = condbounds_record(vc, 1, c["case"], ctx.seed)
+        failing = ctx.validate("Trace_C08", "Trace_C08.cfg", [r])
+        ctx.case(bounds_key(c["case"]))
+        for clause in failing.get(1, []):
+            ctx.violation(clause, bounds_key(c["case"]), f"exc={r['exc']!r} tplrel={r['tplrel']} parrel={r['parrel']}",
+                          replay=c)
         return
     if c.get("kind") == "condhist":
         r = condhist_record(vc, 1, c["case"], c["index"])
